@@ -617,7 +617,21 @@ def opPyx : P String := do
     done
     pure (outFs (f a))
 
+/-- `pyxl <module.kernel> <n> <narr> {arr: n floats}* <nscal> scalars…` → results of a translated array reduction -/
+def opPyxLoop : P String := do
+  let name ← tok
+  let n ← nat
+  let na ← nat
+  let arrs ← many na (flts n)
+  let ns ← nat
+  let sc ← flts ns
+  done
+  match pyxLoopTable.lookup name with
+  | none => pure s!"bad-op:unknown-kernel:{name}"
+  | some f => pure (outFs (f arrs sc n))
+
 def table : List (String × P String) := [
+  ("pyxl", opPyxLoop),
   ("pyx", opPyx),
   ("joint", opJoint),
   ("scaleest", opScaleEst),
